@@ -6,7 +6,7 @@ CONSTANTS
   MaxScript = 3
   MaxCalls = 2
   Scenario = "empty"
-  BuildKinds = {"A", "B", "L", "D", "T", "NT"}
+  BuildKinds = {"A", "B", "L", "D", "DI", "T", "NT"}
   MinEdits = 3
   Kinds = {"jit", "remat", "cond", "switch", "while", "fori", "cached_partial", "eager"}
 SPECIFICATION USpec
